@@ -147,6 +147,10 @@ def gen_cond(g, cls, R, Dy, Dx, ctor=None):
     elif cls in ("full", "diag"):
         d["M"] = [g.mat(Dy, Dx) for _ in range(R)]
         d["b"] = g.mat(R, Dy) if g.randint(0, 3) else None
+    # every fourth conditional was built with ANOTHER covariance and brought to this one by update_Sigma(...)
+    # (a multi-step history: all cached quantities must be those of the new covariance)
+    if cls != "nn" and g.randint(0, 3) == 0:
+        d["Sig0"] = [(g.diag_spd(Dy) if diag else g.spd(Dy)) for _ in range(R)]
     return d
 
 
@@ -169,6 +173,11 @@ def cond_Sig(d, r):
 
 def impl_cond(d):
     """returns (object, kwargs for every method call) -- the NN class needs u= on every call"""
+    if d.get("Sig0") is not None:
+        d0 = dict(d); d0["Sig"] = d["Sig0"]; d0["Sig0"] = None
+        o, kw = impl_cond(d0)
+        o.update_Sigma(jarr(d["Sig"]))
+        return o, kw
     I = gtlib.impl()
     cm = I["conditional"]
     jnp = I["jnp"]
@@ -198,6 +207,9 @@ def impl_cond(d):
 
 
 def coq_cond(d):
+    if d.get("Sig0") is not None:
+        d0 = dict(d); d0["Sig"] = d["Sig0"]; d0["Sig0"] = None
+        return "(update_Sigma %s (lb3 %s))" % (coq_cond(d0), cb3(d["Sig"]))
     cls = d["cls"]
     R, Dy, Dx = d["R"], d["Dy"], d["Dx"]
     S = "(Some (lb3 %s))" % cb3(d["Sig"])
@@ -317,7 +329,9 @@ def gen_scn(g, scn, **kw):
         return dict(scn=scn, c=c, ys=g.mat(N, c["Dy"]), xs=g.mat(3, c["Dx"]))
     if scn in ("joint", "marg_t", "cond_t", "entropies"):
         c = gen_cond(g, cls, Rc, Dy, Dx)
-        p = gen_pdfv(g, Rx, c["Dx"])
+        # p(x) is a full or (every third case, or when asked for) a diagonal density object
+        pdiag = kw["pdiag"] if "pdiag" in kw else (g.randint(0, 2) == 0)
+        p = gen_pdfv(g, Rx, c["Dx"], diag=pdiag)
         return dict(scn=scn, c=c, p=p, xs=g.mat(3, c["Dx"]), ys=g.mat(3, c["Dy"]))
     if scn == "kl":
         R0, R1 = kw.get("R0", R), kw.get("R1", R)
@@ -336,6 +350,10 @@ def coq_term(d):
         return "obs_all %s %s" % (coq_pdfv(d["p"]), xs)
     if scn == "measure_int":
         u = C.coq_measure(d["u"])
+        if d.get("mul"):       # the measure under test is a product u x f (multiplied objects must report their mass too)
+            m = d["mul"]
+            u = "(%s %s %s %s)" % ("multiply" if m["op"] == "multiply" else "hadamard", cbool(m["upd"]),
+                                   ("(prepare %s)" % u) if m["cached"] else u, C.coq_factor(m["f"]))
         # value of log_integral_light, log_integral, then the normalised density
         return ("let u := %s in let a := log_integral_light u in let b := log_integral u in let g := get_density u in "
                 "dL (uR u) a.2 ++ dL (uR u) b.2 ++ obs_all g.2 %s ++ obs_ucache g.1 ++ obs_all (normalize u) %s"
@@ -422,8 +440,21 @@ def run_impl(d):
         chk(fails, ["C02"], "integral of a density is one", "GaussianPDF.integral", p.integral(), np.ones(d["p"]["R"]))
         return ob, fails
     if scn == "measure_int":
-        u = C.impl_measure(d["u"])
-        Lam = np.array([gtlib.fl(L) for L in d["u"]["Lam"]]); nu = gtlib.fl(d["u"]["nu"]); lb = gtlib.fl(d["u"]["lb"])
+        def mk():
+            u0 = C.impl_measure(d["u"])
+            if not d.get("mul"):
+                return u0
+            m = d["mul"]
+            if m["cached"]:
+                u0.integrate()
+            f = C.impl_factor(m["f"])
+            return u0.multiply(f, update_full=m["upd"]) if m["op"] == "multiply" else u0.hadamard(f, update_full=m["upd"])
+        u = mk()
+        if d.get("mul"):
+            # the function the product evaluates to is exp(-x'Lx/2 + nu'x + ln_beta) with ITS natural parameters
+            Lam = np.asarray(u.Lambda, dtype=float); nu = np.asarray(u.nu, dtype=float); lb = np.asarray(u.ln_beta, dtype=float)
+        else:
+            Lam = np.array([gtlib.fl(L) for L in d["u"]["Lam"]]); nu = gtlib.fl(d["u"]["nu"]); lb = gtlib.fl(d["u"]["lb"])
         D = d["u"]["D"]
         Sg = np.linalg.inv(Lam)
         true_li = lb + 0.5 * (np.einsum("ab,abc,ac->a", nu, Sg, nu) + D * math.log(2 * math.pi) - np.linalg.slogdet(Lam)[1])
@@ -444,7 +475,7 @@ def run_impl(d):
         chk(fails, ["C02"], "get_density = u / integral", "measure.get_density", ev_g, ev_u - true_li[:, None])
         consistency(fails, g, "measure.get_density", pdf=True)
         consistency(fails, u, "measure after queries")
-        u2 = C.impl_measure(d["u"])
+        u2 = mk()
         u2.normalize()
         ev_n = obs_all(ob, u2, d["xs"], "normalized.")
         chk(fails, ["C02"], "normalize = u / integral (up to ln_beta)", "measure.normalize", ev_n, ev_u - true_li[:, None])
